@@ -376,9 +376,9 @@ def shape_of_op(case: Dict[str, Any], op: Dict[str, Any]) -> Dict[str, Any]:
 
     def scal(nested: bool) -> List[List[Any]]:
         fs: List[List[Any]] = []
-        for s in case["scalars"]:
+        for s in argwire.result_scalars(case):
             p = s.lower()
-            c = lambda nn: {"k": "custom", "scalar": s, "nn": nn}  # noqa: E731
+            c = lambda nn, s=s: {"k": "custom", "scalar": s, "nn": nn}  # noqa: E731
             fs += [[p + "Plain", c(False)], [p + "Req", c(True)], [p + "List", {"k": "list", "item": c(False), "nn": False}],
                    [p + "Deep", {"k": "list", "item": {"k": "list", "item": c(True), "nn": False}, "nn": True}]]
         return fs
